@@ -431,6 +431,22 @@ def xadmBound (t : List String) : Option Bool :=
   | ["proto", v] => do pure (decide ((← v.toNat?) ≤ Gen.MAX_PROTOCOL_FEE_RATE))
   | ["idx", v] => do pure (decide ((← v.toNat?) < 3))
   | ["afcsame"] => some false   -- set_adaptive_fee_constants with nothing to change is refused
+  -- `afcset ts <existing 7> <present 7 × 0|1> <requested 7>`: the handler of set_adaptive_fee_constants on the stored
+  -- constants (merge, unchanged?, valid for the spacing?)
+  | "afcset" :: rest => do
+    let n ← natArgs rest
+    match n with
+    | [ts, e0, e1, e2, e3, e4, e5, e6, m0, m1, m2, m3, m4, m5, m6, r0, r1, r2, r3, r4, r5, r6] =>
+      let o := fun (m v : Nat) => if m = 1 then some v else none
+      let info : AfInfo := { constants := { filterPeriod := e0, decayPeriod := e1, reductionFactor := e2, controlFactor := e3,
+                                            maxVolAcc := e4, groupSize := e5, majorSwapThresholdTicks := e6 },
+                             variables := { volAcc := 1 } }
+      let req : AfRequest := { filterPeriod := o m0 r0, decayPeriod := o m1 r1, reductionFactor := o m2 r2, controlFactor := o m3 r3,
+                               maxVolAcc := o m4 r4, groupSize := o m5 r5, majorSwapThresholdTicks := o m6 r6 }
+      match setAdaptiveFeeConstants ts info req with
+      | .ok i => pure (decide (i.variables = {}))
+      | .error _ => pure false
+    | _ => none
   | "afc" :: rest => do
     let n ← natArgs rest
     match n with
